@@ -1,14 +1,17 @@
-(* C03 — model of the REPAIRED so: rescaling proposed in /verif/fixes/C03-F2.patch (not applied to /repo): the "0." goes
-   behind the whole operator run (the first run of = > < ~ characters), not behind the first "=".  Model/Version.v stays
-   the code as it is today; this file exists to evaluate the repair (conservativity + the theorem it would make true).
-   No proofs here. *)
+(* C03 — the so: rescaling of ResolvePackageNameVersionPin in its two shapes.
+   [so_rewrite_run] is the readable hand form of TODAY's code (since fix C03-F2, commit 0f275a6: "0." goes behind the whole
+   run of operator characters); Proofs/SonameProofs.v proves Model.Version.so_rewrite - which interprets the shape goextract
+   read from the source - equal to it.
+   [so_rewrite_old] / [resolve_constraint_old] are the HYPOTHETICAL old shape (strings.Cut at the first "=", as the code was
+   before the fix): kept so that the defect stays stated (Properties/C03.v, the c03_soname_old_shape theorems) and so that a revert of the
+   fix lands on a model that exists.  No proofs here. *)
 From Apko Require Import Base.Prelude Base.Regex Model.Version
   Generated.Regexes Generated.VersionConsts Generated.C03Version.
 Open Scope string_scope. Open Scope list_scope. Open Scope Z_scope.
 
 (* i := strings.IndexAny(pkgName, "=><~"); j := end of the run of such characters starting at i;
    if !endsWithReleaseStr.MatchString(pkgName[j:]) { pkgName = pkgName[:j] + "0." + pkgName[j:] } *)
-Definition so_rewrite_fixed (s : list N) : list N :=
+Definition so_rewrite_run (s : list N) : list N :=
   match strip_prefix (bytes_of_string "so:") s with
   | None => s
   | Some _ =>
@@ -21,6 +24,10 @@ Definition so_rewrite_fixed (s : list N) : list N :=
       end
   end.
 
+(* before the fix: onlyPkgName, pkgVersion, found := strings.Cut(pkgName, "=");
+   if found && !endsWithReleaseStr.MatchString(pkgVersion) { pkgName = onlyPkgName + "=0." + pkgVersion } *)
+Definition so_rewrite_old : list N -> list N := so_rewrite_with (SoCutAt "=" "=0.").
+
 (* ResolvePackageNameVersionPin with the rewrite step as a parameter (resolve_constraint = resolve_with so_rewrite) *)
 Definition resolve_with (rw : list N -> list N) (s0 : string) : constraint :=
   let s := rw (bytes_of_string s0) in
@@ -32,4 +39,4 @@ Definition resolve_with (rw : list N -> list N) (s0 : string) : constraint :=
        c_pin := string_of_bytes pin |}
   else {| c_name := str; c_version := ""; c_dep := dep_versionAny; c_pin := "" |}.
 
-Definition resolve_constraint_fixed : string -> constraint := resolve_with so_rewrite_fixed.
+Definition resolve_constraint_old : string -> constraint := resolve_with so_rewrite_old.
